@@ -5,7 +5,7 @@ from common import *
 from concurrent.futures import ThreadPoolExecutor
 
 crates = sorted(d for d in os.listdir(os.path.join(VERIF, "kani")) if os.path.exists(os.path.join(VERIF, "kani", d, "Cargo.toml")))
-nslots = int(os.environ.get("VERIF_WARM_SLOTS", jobs()))
+nslots = int(os.environ.get("VERIF_WARM_SLOTS", 4))
 
 def warm(slot):
     for c in crates:
